@@ -285,17 +285,19 @@ PROPS["C16"] = {
         Job("soyhtml", "H_wordBreaks", "0..3,1..3", workers=16),
         Job("soyhtml", "H_newlineToBr", "0..3", workers=8, maxfan=300),
         Job("soyhtml", "H_chain", "0..4", workers=8),
+        Job("soyhtml", "H_json", "0..3,0..2", workers=16),
+        Job("soyhtml", "H_json", "0,3", tier="thorough", workers=16),
         Job("soyhtml", "H_escapeUri", "3", tier="thorough", workers=16),
         Job("soyhtml", "H_escapeJs", "3,0..4", tier="thorough", workers=16),
         Job("soyhtml", "H_truncate", "4..5,0..8,0..2", tier="thorough", workers=16),
         Job("soyhtml", "H_newlineToBr", "4", tier="thorough", workers=16, maxfan=300),
     ],
-    "bounds_quick": "escapeUri: every string of <= 2 bytes (all 256 values); escapeJsString: <= 2 ASCII bytes (incl. controls) optionally with one of U+00E9/U+2028/U+2029/U+FEFF; truncate: valid UTF-8 strings of <= 3 bytes, limit 0..5, ellipsis default/true/false, and 5-byte strings with limit 4 and the ellipsis on; insertWordBreaks:k (k 1..3) on <= 3 ASCII bytes; changeNewlineToBr on every string of length <= 3 over {a,<,&,LF,CR,space} (regexp runs natively on concrete text); 5 chains of two directives through parser and renderer",
+    "bounds_quick": "escapeUri: every string of <= 2 bytes (all 256 values); escapeJsString: <= 2 ASCII bytes (incl. controls) optionally with one of U+00E9/U+2028/U+2029/U+FEFF; truncate: valid UTF-8 strings of <= 3 bytes, limit 0..5, ellipsis default/true/false, and 5-byte strings with limit 4 and the ellipsis on; insertWordBreaks:k (k 1..3) on <= 3 ASCII bytes; changeNewlineToBr on every string of length <= 3 over {a,<,&,LF,CR,space} (regexp runs natively on concrete text); 5 chains of two directives through parser and renderer; |json on strings of <= 2 bytes of valid UTF-8 (all byte values), alone and inside lists/maps with booleans, null, undefined and small ints, against a reference JSON parser (encoding/json's string encoding is a Go model validated natively against json.Marshal; structure and key order are produced as encoding/json documents them)",
     "bounds_thorough": "escapeUri 3 bytes; escapeJsString 3 bytes; truncate strings of <= 5 bytes with limits 0..8; changeNewlineToBr length 4",
-    "outside": "|json (encoding/json works through reflection: outside the engine); the JavaScript counterparts in soyutils.js (no JavaScript semantics in the engine); bidi directives (unimplemented in soy); longer strings",
+    "outside": "|json of floats and of values outside the listed shapes (encoding/json itself works through reflection and is replaced by a model for strings plus the documented structure rules); the JavaScript counterparts in soyutils.js (no JavaScript semantics in the engine); bidi directives (unimplemented in soy); longer strings",
     "assumptions": ["refJSString (harness): reference decoder of ECMAScript string literal bodies, rejecting raw quotes, line terminators, control characters and < > &"],
     "level_text": "Bounded symbolic model checking of the Go directive implementations with the value's bytes symbolic; decodability is checked by independent reference decoders executed by the same engine. Only the Go half of the property is claimed.",
-    "level_note": "json and the JS-side directives are outside the technique's reach here. Trusted: go/ssa, gosym, z3, stdlib models (validated natively), reference decoders.",
+    "level_note": "The JS-side directives are outside the technique's reach here; json is covered through a validated model of encoding/json's string encoding. Trusted: go/ssa, gosym, z3, stdlib models (validated natively), reference decoders.",
 }
 
 # ---------------------------------------------------------------- C14
